@@ -101,16 +101,43 @@ def sortCounts (m : List (String × Int)) : List (String × Int) := m.mergeSort 
 
 def countsToJson (m : List (String × Int)) : Json := Json.mkObj ((sortCounts m).map fun (k, v) => (k, ji v))
 
+structure P where
+  app : Str
+  entry : Str
+  node : Str
+  ident : Str
+  count : Int
+
+def pOfJson (j : Json) : P :=
+  { app := (jstr (jget j "app")).toList, entry := (jstr (jget j "entry")).toList, node := (jstr (jget j "node")).toList,
+    ident := (jstr (jget j "ident")).toList, count := jint (jget j "count") }
+
+def addCount (m : List (String × Int)) (k : String) (n : Int) : List (String × Int) :=
+  match m with
+  | [] => [(k, n)]
+  | (k', v) :: r => if k' = k then (k', v + n) :: r else (k', v) :: addCount r k n
+
+def colorOf (j : Json) : List (String × String) :=
+  let c := jstr (jget j "color")
+  if c == "" then [] else [("color", c)]
+
 def handleWorld (j : Json) : Json :=
   let id := jget j "id"
   let redis := jstr (jget j "backend") == "redis"
-  let ws := (jarr (jget j "world")).map wOfJson
+  let wsj := jarr (jget j "world")
+  let ws := wsj.map fun w => (wOfJson w, colorOf w)
+  let ps := (jarr (jget j "procs")).map pOfJson
   let impl := jget j "impl"
-  let stored : List (W × Str) := ws.filterMap fun w => (storedKey w).map fun k => (w, k)
+  -- keys the store writes: the (app, entry) of the deploy and status keys are parsed back from the name
+  let stored : List (W × List (String × String) × Str × Str) := ws.filterMap fun (w, col) =>
+    match parseName (makeName w.app w.entry w.sfx) with
+    | some (a, e, _) => some (w, col, workloadKey deployRoot a e w.node w.id, workloadKey statusRoot a e w.node w.id)
+    | none => none
+  let pkeys : List (P × Str) := ps.map fun p => (p, workloadKey processingRoot p.app p.entry p.node p.ident)
   let sel (pre : Str) (k : Str) : Bool := if redis then globMatch (pre ++ ['*']) k else hasPrefix pre k
   let qs := jarr (jget j "queries")
   let rs := jarr (jget impl "results")
-  let names : List Str := (ws.flatMap fun w => [w.app, w.entry, w.node]) ++
+  let names : List Str := (ws.flatMap fun (w, _) => [w.app, w.entry, w.node]) ++ (ps.flatMap fun p => [p.app, p.entry, p.node]) ++
     (qs.flatMap fun q => [(jstr (jget q "app")).toList, (jstr (jget q "entry")).toList, (jstr (jget q "node")).toList]).filter (· ≠ [])
   let unclean := names.any fun n => !decide (CleanName n)
   let globby := redis && names.any fun n => !decide (GlobFree n)
@@ -120,28 +147,47 @@ def handleWorld (j : Json) : Json :=
     let fa := (jstr (jget q "app")).toList
     let fe := (jstr (jget q "entry")).toList
     let fn := (jstr (jget q "node")).toList
-    if jstr (jget q "kind") == "list" then
-      let pre := listPrefix deployRoot fa fe fn
-      let modelIds := sortStrs ((stored.filter fun wk => sel pre wk.2).map fun wk => S wk.1.id)
-      let want := sortStrs ((ws.filter fun w => filterMatches fa fe fn w.app w.entry w.node).map fun w => S w.id)
-      let got := jstrs (jget r "ids")
+    let kind := jstr (jget q "kind")
+    let lab : List (String × String) := if jstr (jget q "label") == "" then [] else [("color", jstr (jget q "label"))]
+    let limit := jnat (jget q "limit")
+    if kind == "list" || kind == "stream" then
+      let isStream := kind == "stream"
+      let pre := listPrefix (if isStream then statusRoot else deployRoot) fa fe fn
+      -- etcd returns the range in key order; the limit cuts it before the label filter is applied
+      let hit := (stored.filter fun x => sel pre (if isStream then x.2.2.2 else x.2.2.1)).mergeSort
+        (fun x y => String.ofList x.2.2.1 ≤ String.ofList y.2.2.1)
+      let modelIds := sortStrs (((applyLimit limit hit).filter fun x => labelsFilter x.2.1 lab).map fun x => S x.1.id)
+      let want := sortStrs ((ws.filter fun (w, col) => filterMatches fa fe fn w.app w.entry w.node && labelsFilter col lab).map fun (w, _) => S w.id)
+      let got := jstrs (jget r (if isStream then "stream" else "ids"))
       let isErr := jhas r "err"
-      let viol := if isErr then ["C24:list:error" ++ sfx] else
-        (if got.any (fun i => !want.contains i) then ["C24:list:extra" ++ sfx] else []) ++
-        (if want.any (fun i => !got.contains i) then ["C24:list:missing" ++ sfx] else [])
-      (acc.1 && !isErr && got == modelIds, acc.2.1 ++ [Json.arr (modelIds.map Json.str).toArray], acc.2.2 ++ viol)
+      let tag := if isStream then "C24:stream:" else "C24:list:"
+      let viol :=
+        if isErr then [tag ++ "error" ++ sfx]
+        else if limit > 0 then
+          -- with a limit the result must be `min limit |want|` of the wanted workloads (no labels in these queries)
+          (if got.all (fun i => want.contains i) then [] else [tag ++ "extra" ++ sfx]) ++
+          (if got.length == min limit want.length then [] else [tag ++ "limit" ++ sfx])
+        else
+          (if got.any (fun i => !want.contains i) then [tag ++ "extra" ++ sfx] else []) ++
+          (if want.any (fun i => !got.contains i) then [tag ++ "missing" ++ sfx] else [])
+      let agreeQ := !isErr && (if limit > 0 && redis then got.length == modelIds.length && got.all (fun i => (hit.map fun x => S x.1.id).contains i) else got == modelIds)
+      (acc.1 && agreeQ, acc.2.1 ++ [Json.arr (modelIds.map Json.str).toArray], acc.2.2 ++ viol)
     else
       let pre := countPrefix deployRoot fa fe
-      let modelC := (stored.filter fun wk => sel pre wk.2).foldl (fun m wk => insertCount m (S (nodeOfKey wk.2))) []
-      let wantC := (ws.filter fun w => fa == w.app && fe == w.entry).foldl (fun m w => insertCount m (S w.node)) []
+      let ppre := countPrefix processingRoot fa fe
+      let modelC0 := (stored.filter fun x => sel pre x.2.2.1).foldl (fun m x => insertCount m (S (nodeOfKey x.2.2.1))) []
+      let modelC := (pkeys.filter fun pk => sel ppre pk.2).foldl (fun m pk => addCount m (S (nodeOfKey pk.2)) pk.1.count) modelC0
+      let wantC0 := (ws.filter fun (w, _) => fa == w.app && fe == w.entry).foldl (fun m (w, _) => insertCount m (S w.node)) []
+      let wantC := (ps.filter fun p => fa == p.app && fe == p.entry).foldl (fun m p => addCount m (S p.node) p.count) wantC0
       let gotC := sortCounts ((jobjList (jget r "counts")).map fun (k, v) => (k, jint v))
       let isErr := jhas r "err"
       let viol := if isErr then ["C24:count:error" ++ sfx] else if gotC == sortCounts wantC then [] else ["C24:count:wrong" ++ sfx]
       (acc.1 && !isErr && gotC == sortCounts modelC, acc.2.1 ++ [countsToJson modelC], acc.2.2 ++ viol)
   let (agree, model, viols) := (qs.zip rs).foldl step (true, [], [])
   let agree := agree && qs.length == rs.length && (jarr (jget impl "add_errs")).isEmpty
+  let hasStream := qs.any fun q => jstr (jget q "kind") == "stream"
   verdict id agree (Json.arr model.toArray) viols.eraseDups
-    ("world:" ++ (if redis then "redis" else "etcd") ++ (if sfx == "" then ":clean" else sfx)) (ws.length < 2)
+    ("world:" ++ (if redis then "redis" else "etcd") ++ (if sfx == "" then ":clean" else sfx) ++ (if hasStream then "+stream" else "") ++ (if ps.isEmpty then "" else "+proc")) (ws.length < 2)
 
 def handle (j : Json) : Json :=
   let id := jget j "id"
